@@ -81,6 +81,7 @@ structure WF (P : Params K) (items : List (Item K)) (lineW : K) : Prop where
   box : ∀ a b, a < b → legalAt P items a = true → legalAt P items b = true → lineStart P items (some a) ≤ b
   fl : flaggedAt items 0 = false
   np : ∀ b it, items[b]? = some it → it.ty = Ty.glue → b + 1 < items.length
+  epsNonneg : 0 ≤ P.eps
   /-- the exact-fit guard of `computeAdjustmentRatio` (bb6487a: `|L−W| ≤ eps·W ⇒ L := W`,
   `|r+1| ≤ eps ⇒ r := −1`, `eps = 1e-10` in the code) does not alter the ratio of any candidate line:
   no line lies strictly inside the guard band. Trivial for `eps = 0` (`wf_snap_of_eps0`). -/
